@@ -90,8 +90,9 @@ def nontrivial(op):
     return True
 
 ASSUME = [
-    "generic channel_multiplier_unsigned (uint32_t, int32_t, packed channels) and float32 channels use IEEE arithmetic: "
-    "partial (float) -- decided by the Spec evaluated on the real code's output (complete for packed widths <= 8), the Lean model reproduces the IEEE operation sequence with Float/Float32",
+    "float32 channels use IEEE binary32 arithmetic: partial (float) RELATIVE TO FloatSpec -- the laws are proved for every rounding function satisfying "
+    "FloatSpec (Props/C07Float.lean, C07_float_*); trusted: the target's binary32 arithmetic is such a rounding with eps = 2^-24 and the code performs the modelled "
+    "operations (executable Float32 model compared bit for bit; abstract model with the genuine binary32 instance evaluated by the Lean kernel on sampled ops)",
     "signed overflow does not occur in the translated kernels (checked by UBSan in the harness)",
 ]
 
